@@ -49,8 +49,12 @@ def gen_instance(rng, tier, max_admitted=5, force=None, theme=None):
     tfixed_budget:   a geo fixed to treatment together with a budget range"""
   force = force or {}
   theme = theme or rng.choice(THEMES)
-  n_data = force.get('n_data') or rng.choice([1, 2, 3, 3, 4, 4, 4, 5, 5, 5, 6] if max_admitted >= 6
-                                            else [1, 2, 3, 3, 4, 4, 4, 5, 5, 5])
+  sizes = [1, 2, 3, 3, 4, 4, 4, 5, 5, 5]
+  if max_admitted >= 6:
+    sizes = sizes + [6, 6]
+  if max_admitted >= 7 and rng.random() < 0.25:
+    sizes = [7]
+  n_data = force.get('n_data') or rng.choice(sizes)
   n_dates = rng.choice([8, 10, 12, 16, 20, 24])
   n_test = rng.choice([1, 1, 2, 3])
   label_pool = ['10', '2', '33', 'a', 'B', 'geo7', '007', '41', 'z9', '5']
@@ -573,7 +577,7 @@ def tree_hash():
 
 
 def budget(tier):
-  return {'quick': dict(n=160, max_admitted=5), 'thorough': dict(n=2500, max_admitted=6)}[tier]
+  return {'quick': dict(n=160, max_admitted=5), 'thorough': dict(n=6000, max_admitted=7)}[tier]
 
 
 def corpus_instances():
